@@ -13,6 +13,7 @@ import (
 	"strings"
 	"sync"
 	"time"
+	wdog "verifharness/wd"
 
 	"github.com/goatcms/goatcore/filesystem"
 	"github.com/goatcms/goatcore/filesystem/filespace/memfs"
@@ -149,7 +150,7 @@ func cmdMemConc(args []string) error {
 		go func() { wg.Wait(); close(done) }()
 		select {
 		case <-done:
-		case <-time.After(20 * time.Second):
+		case <-wdog.After(20 * time.Second):
 			buf := make([]byte, 1<<16)
 			k := runtime.Stack(buf, true)
 			mu.Lock()
@@ -236,7 +237,7 @@ func cmdMemWitness(args []string) error {
 			done <- ""
 		}()
 		finished := 0
-		timeout := time.After(5 * time.Second)
+		timeout := wdog.After(5 * time.Second)
 	wait:
 		for finished < 2 {
 			select {
@@ -279,7 +280,7 @@ func cmdMemWitness(args []string) error {
 		var werr error
 		select {
 		case <-parked:
-		case <-time.After(3 * time.Second):
+		case <-wdog.After(3 * time.Second):
 			memfs.VerifHook = nil
 			add("infra:hook-not-reached", "wf_rm", "Remove did not reach the remove.checked hook")
 			continue
@@ -302,7 +303,7 @@ func cmdMemWitness(args []string) error {
 			released = true
 			select {
 			case werr = <-created:
-			case <-time.After(5 * time.Second):
+			case <-wdog.After(5 * time.Second):
 				buf := make([]byte, 1<<15)
 				k := runtime.Stack(buf, true)
 				add("hang", "wf_rm", creator+"(d/x) did not return within 5 s after Remove(d) was released\n"+string(buf[:k]))
@@ -316,7 +317,7 @@ func cmdMemWitness(args []string) error {
 		var rerr error
 		select {
 		case rerr = <-rmDone:
-		case <-time.After(5 * time.Second):
+		case <-wdog.After(5 * time.Second):
 			add("hang", "wf_rm", "Remove did not return")
 		}
 		memfs.VerifHook = nil
@@ -378,7 +379,7 @@ func cmdMemWitness(args []string) error {
 			w = <-opened
 		case w = <-opened:
 			close(release)
-		case <-time.After(3 * time.Second):
+		case <-wdog.After(3 * time.Second):
 			add("hang", "sc_rd", "Writer did not return")
 			memfs.VerifHook = nil
 			continue
@@ -406,7 +407,7 @@ func cmdMemWitness(args []string) error {
 				if r.err != nil || string(r.data) != "FULL" {
 					add("torn:read-after-close", "sc_rd", fmt.Sprintf("ReadFile returned %q, %v after the writer closed", r.data, r.err))
 				}
-			case <-time.After(5 * time.Second):
+			case <-wdog.After(5 * time.Second):
 				add("hang", "sc_rd", "ReadFile did not return after the writer closed")
 			}
 		}
@@ -430,7 +431,7 @@ func cmdMemWitness(args []string) error {
 		go func() { fs.Remove("p/c"); done <- "remove" }()
 		select {
 		case <-parked:
-		case <-time.After(3 * time.Second):
+		case <-wdog.After(3 * time.Second):
 			memfs.VerifHook = nil
 			add("infra:hook-not-reached", "rm_cp_wf", "Remove did not reach the remove.checked hook")
 			continue
@@ -444,7 +445,7 @@ func cmdMemWitness(args []string) error {
 		time.Sleep(20 * time.Millisecond)
 		close(release)
 		finished := map[string]bool{}
-		timeout := time.After(5 * time.Second)
+		timeout := wdog.After(5 * time.Second)
 	waitAll:
 		for len(finished) < 3 {
 			select {
@@ -498,7 +499,7 @@ func cmdMemWitness(args []string) error {
 		if !returnedEarly {
 			select {
 			case <-cp:
-			case <-time.After(5 * time.Second):
+			case <-wdog.After(5 * time.Second):
 				add("hang", "sw_cp:"+how, "the copy did not return after the writer was closed")
 				continue
 			}
@@ -556,7 +557,7 @@ func cmdMemWitness(args []string) error {
 		go func() { wg.Wait(); close(waitDone) }()
 		select {
 		case <-waitDone:
-		case <-time.After(10 * time.Second):
+		case <-wdog.After(10 * time.Second):
 			add("hang", "cd_rm", "Copy(dir) against Remove(children) did not finish")
 			continue
 		}
